@@ -156,8 +156,9 @@ Proof.
     - destruct (IHT z Hz) as (s' & ? & ?). exists s'. cbn [In]. auto. }
   destruct o as [w h k t data rts| | | | | |].
   2-7: left;
-    (assert (T : thinned (r_samples (fst (step r _))) (r_samples r))
-       by (apply step_samples_thinned; intros; discriminate));
+    match type of Hin with In _ (r_samples (fst (step _ ?o))) =>
+      assert (T : thinned (r_samples (fst (step r o))) (r_samples r))
+        by (apply step_samples_thinned; intros; discriminate) end;
     destruct (Hth _ _ T s Hin) as (s' & Hin' & <- & <-); now apply Hinv.
   cbn [step] in *. pose proof (add_change_outcome r w data k h t rts) as O.
   destruct (add_change r w data k h t rts) as [r' a]. cbn [fst snd] in *.
@@ -197,7 +198,7 @@ Theorem rejected_reasons r w data k h t rts h' c :
 Proof.
   pose proof (add_change_outcome r w data k h t rts) as O.
   destruct (add_change r w data k h t rts) as [r' a]. cbn [snd].
-  inversion O as [? ? Hg [?|?] _| | | | |]; subst; try discriminate; intros H; injection H as <- <-; auto.
+  inversion O as [? ? Hg [?|?] _| | | | |]; subst; try discriminate; intros HR; injection HR as <- <-; auto.
 Qed.
 (* a sample is stored exactly when it passes the gates and no limit is hit
    (the depth-0 panic aside) *)
@@ -213,9 +214,8 @@ Proof.
     split; try discriminate; try (intros (G0 & G1 & G2 & G3 & G4); try congruence).
   - elim G4. auto.
   - intros _. repeat split; auto. intros [Hd Hc].
-    assert (E : replaces_b r (s_inst smp) = true) by (unfold replaces_b; rewrite Hd, Hc; reflexivity).
+    assert (E : replaces_b r h = true) by (unfold replaces_b; rewrite Hd, Hc; reflexivity).
     specialize (Hpos E). lia.
-  - reflexivity.
 Qed.
 
 (* the meaning of the three tests, spelled out *)
